@@ -152,6 +152,7 @@ def do_T(ops):
     from traits.ctrait import CTrait
     t = None
     probe = False
+    dprobe = False
     for op in ops:
         w = op.split()
         try:
@@ -160,7 +161,7 @@ def do_T(ops):
             elif w[0] == "validate":
                 t.set_validate(_validate_arg(int(w[1])))
             elif w[0] == "delegate":
-                t.delegate("d", "p", int(w[1]), False)
+                t.delegate("target", "x", int(w[1]), True)
             elif w[0] == "property":
                 g, s, v, hv = int(w[1]), int(w[2]), int(w[3]), w[4] == "1"
                 t._set_property(lambda *a: 0, g, lambda *a: None, s, (lambda *a: a[-1]) if hv else None, v)
@@ -172,6 +173,8 @@ def do_T(ops):
                                     (len, ((),), None) if k == 7 else (lambda o: 3) if k == 8 else 5)
             elif w[0] == "probe":
                 probe = True
+            elif w[0] == "dprobe":
+                dprobe = True
             else:
                 return "bad-case"
         except TraitError:
@@ -198,6 +201,33 @@ def do_T(ops):
             except Exception as e:
                 return exc_name(e)
         pr = " probe=%s,%s,%s" % (one(lambda h: h.z), one(lambda h: setattr(h, "z", 1)), one(lambda h: delattr(h, "z")))
+    if dprobe:
+        # owner.x / owner.x = 7 through delegate("target", "x", prefix_type, True) (twin of probeDelegated)
+        from traits.api import HasTraits, Instance, Int
+
+        class Target(HasTraits):
+            x = Int(42)
+
+        class Owner(HasTraits):
+            target = Instance(Target, ())
+
+        def g():
+            o = Owner()
+            o.add_trait("x", t)
+            try:
+                return "ok" if o.x == 42 and o.base_trait("x") is not None else "wrong"
+            except Exception as e:
+                return exc_name(e)
+
+        def st():
+            o = Owner()
+            o.add_trait("x", t)
+            try:
+                o.x = 7
+                return "ok" if o.target.x == 7 else "wrong"
+            except Exception as e:
+                return exc_name(e)
+        pr += " dprobe=%s,%s" % (g(), st())
     t.__dict__ = {}   # a CTrait without __dict__ does not survive __setstate__ (finding F17); not this protocol's subject
     st = t.__getstate__()
     idx = (st[0], st[1], st[2], st[4], st[11])
